@@ -230,9 +230,9 @@ def _definition_table(prog: Program, ctx: Ctx, rule: str = "R5") -> None:
         klass = it._construct(prog.cls(f"{M}.Class"), ["K"], {})
         mod = it._construct(prog.cls(f"{M}.Module"), ["m"], {"filepath": PurePosixPath("/s/m.py")})
         it.call(prog.lookup_method(mod.cls, "set_member")[0], mod, "K", klass)
-        vis = Obj(prog.cls("_griffe.agents.visitor.Visitor"), {
-            "current": klass, "type_guarded": False, "extensions": Obj(None, {"call": Native(lambda *a, **k: None)}), "docstring_parser": None,
-            "docstring_options": {}, "lines_collection": None, "modules_collection": None, "filepath": "m.py", "code": ""}, label="visitor")
+        # the visitor as its own constructor leaves it (whatever state it keeps between definitions is there), standing in the class body
+        vis = it._construct(prog.cls("_griffe.agents.visitor.Visitor"), ["m", PurePosixPath("/s/m.py"), "", Obj(None, {"call": Native(lambda *a, **k: None)}, label="extensions")], {})
+        vis.attrs["current"] = klass
         body = "\n".join(srcs)
         tree = ast.parse("class K:\n" + "\n".join("    " + ln for ln in body.splitlines()))
         try:
